@@ -59,14 +59,15 @@ def gen_projects(rng, quick):
         shared = rng.choice(G.ALIASES) if rng.random() < 0.25 else None       # several packages under one alias
         specs = [G.gen_spec(rng, j, pl, n, kind, pos, alias=shared, sp=sp, detached=det) for j, (pl, n, kind, pos, sp, det) in enumerate(chunk)]
         npk = len(specs)
-        # the same package once more: as a root import next to a named one, under the same alias
-        # again (one import), or under a SECOND alias (exposed under both; every third project has one)
+        # the same package once more: as a root import next to a named one (or next to another bare
+        # tag: one import since 4a102aa), under the same alias again (one import), or under a SECOND
+        # alias (exposed under both; every third project has one)
         if rng.random() < 0.35 or i % 3 == 0:
             cand = [j for j in range(npk) if G.oracle_tag(specs[j]) is not None] or [0]
             named = [j for j in cand if G.oracle_tag(specs[j])]
             j = rng.choice(named if (named and i % 3 == 0) else cand)
             a = G.oracle_tag(specs[j])
-            how = "second" if (i % 3 == 0 or not a) else rng.choice(["root", "same", "second"])
+            how = "second" if i % 3 == 0 else rng.choice(["root", "same", "second"] if a else ["root", "root", "second"])
             if how == "root":
                 again = G.gen_spec(rng, j, rng.choice(PLACEMENTS), rng.randrange(3), "root")
             elif how == "same":
@@ -107,15 +108,6 @@ def gen_projects(rng, quick):
             if len(tg) >= 2:
                 j = rng.choice(tg)
                 proj["packages"][j] = G.gen_package(rng, j, shape="empty")
-        # the same package as a root import twice is a name clash (C07): drop a second root
-        seen = set()
-        for f in proj["files"]:
-            for d in f["decls"]:
-                for s in list(d["specs"]):
-                    if isinstance(s["pkg"], int) and G.oracle_tag(s) == "":
-                        if s["pkg"] in seen:
-                            s["lead"], s["trail"] = [], None
-                        seen.add(s["pkg"])
         projects.append(G.rename_until_clash_free(rng, proj))
         i += 1
     projects += odd_projects(rng, i)
@@ -172,13 +164,13 @@ ARRANGEMENTS = ["one-block", "two-blocks", "two-files", "two-files-later-first",
 
 def multi_projects(rng, i0):
     """the SAME package imported several times in one project: bare+alias, alias+bare, alias+alias
-    (same alias, in another letter case), alias+alias (different), alias+bare+alias2 - on five
-    packages of one project, in five arrangements of the two (three) specs: one import block, two
-    blocks, two magefiles (either name order), single-line imports.  Every exposure the tags ask
-    for must be there.  (bare+bare: see bare_twice_project.)"""
+    (same alias, in another letter case), alias+alias (different), alias+bare+alias2, bare+bare,
+    bare+alias+bare - on seven packages of one project, in five arrangements of the two (three)
+    specs: one import block, two blocks, two magefiles (either name order), single-line imports.
+    Every exposure the tags ask for must be there, once."""
     out = []
     for k, arr in enumerate(ARRANGEMENTS):
-        proj = G.assemble(rng, "m%04d" % (i0 + k), LAYOUTS[(k + 3) % len(LAYOUTS)], [], 5)
+        proj = G.assemble(rng, "m%04d" % (i0 + k), LAYOUTS[(k + 3) % len(LAYOUTS)], [], 7)
         for pk in proj["packages"]:
             pk["nested"] = None
         al = rng.sample([a for a in G.ALIASES if a.lower() not in ("tools", "docker")], 6)
@@ -187,7 +179,9 @@ def multi_projects(rng, i0):
                   [("alias", al[1]), ("root", None)],
                   [("alias", same.lower()), ("alias", same.upper())],
                   [("alias", al[3]), ("alias", al[4])],
-                  [("alias", al[5]), ("root", None), ("alias", al[0])]]
+                  [("alias", al[5]), ("root", None), ("alias", al[0])],
+                  [("root", None), ("root", None)],                       # bare twice: listed once, runs, has help
+                  [("root", None), ("alias", al[3]), ("root", None)]]
         grouped = arr in ("one-block", "two-blocks", "two-files")
         rounds = [[], [], []]          # the first / second / third spec of every package
         for j, combo in enumerate(combos):
@@ -213,17 +207,6 @@ def multi_projects(rng, i0):
         proj["multi"] = arr
         out.append(G.rename_until_clash_free(rng, proj))
     return out
-
-
-def bare_twice_project(rng):
-    """observation only: two magefiles each with a bare mage:import of the same package"""
-    proj = G.assemble(rng, "w0000", "inside", [], 1)
-    proj["packages"][0]["nested"] = None
-    s1, s2 = (G.gen_spec(rng, 0, "single_above", 0, "root") for _ in range(2))
-    s1["name"] = s2["name"] = "_"
-    proj["files"] = [{"name": "mf_a.go", "decls": [{"kind": "single", "gdoc": [], "specs": [s1]}]},
-                     {"name": "mf_b.go", "decls": [{"kind": "single", "gdoc": [], "specs": [s2]}]}]
-    return G.uniquify(rng, proj)
 
 
 def odd_projects(rng, i0):
@@ -494,17 +477,9 @@ def run(ctx):
     else:
         projects = gen_projects(rng, ctx.quick)
         sequences = gen_sequences(rng, ctx.quick)
-    watch = bare_twice_project(rng) if not ctx.replay else None      # observation only: no case, no oracle, never an alarm
     ctx.log("projects:", len(projects), "sequences:", len(sequences))
     results = pmap(lambda j: run_sequence(ctx, mage, unitbin, j, outside) if "sequence" in j else run_project(ctx, mage, j, outside),
-                   projects + sequences + ([watch] if watch else []))
-    if watch:
-        w = results.pop()
-        ctx.coverage["observation_same_package_bare_twice"] = {
-            "what": "two magefiles each with a bare mage:import of the same package (observation only; the property sentence has every spec contribute the package's targets - one exposure)",
-            "mage_-l_exit": w["list_rc"], "error_class": w.get("error"), "listed": w.get("names"), "stderr": (w.get("stderr") or "")[-300:]}
-        if w["list_rc"] != 0:
-            ctx.notes.append("observation: the same package mage:import'ed bare in two magefiles makes `mage -l` fail (%s): %s" % (w.get("error"), (w.get("stderr") or "").strip()[-200:]))
+                   projects + sequences)
     observations = results[:len(projects)]
     # the steps of the sequences are cases like the projects: (state, observation); origin[i] = (sequence, step) for reporting
     nproj = len(projects)
